@@ -16,6 +16,10 @@
 (***************************************************************************)
 EXTENDS Integers, Sequences, FiniteSets
 
+\* NB: no operator parameter here may be named like a VARIABLE of a module that extends this one
+\* (st in SymCodes_mc, l in SymTrace): TLC then stops treating the big tables as constants and rebuilds
+\* them at every reference.
+
 \* ------------------------------------------------------------------------
 \* small helpers
 Abs(x) == IF x < 0 THEN -x ELSE x
@@ -48,6 +52,9 @@ Fits32(w) == w[1] < SAT
 Fits31(w) == w[1] < 32768
 NatOf(w) == w[1] * B16 + w[2]      \* only when Fits31(w)
 WLess(a, b) == a[1] < b[1] \/ (a[1] = b[1] /\ a[2] < b[2])
+WLeq(a, b) == ~WLess(b, a)
+WSub(a, b) == IF a[2] >= b[2] THEN <<a[1] - b[1], a[2] - b[2]>> ELSE <<a[1] - b[1] - 1, a[2] + B16 - b[2]>>   \* a >= b, both < 2^32
+WOf(x) == <<x \div B16, x % B16>>                                                                            \* 0 <= x < 2^31
 
 \* ------------------------------------------------------------------------
 \* 1. PVQ: counting
@@ -59,28 +66,38 @@ WLess(a, b) == a[1] < b[1] \/ (a[1] = b[1] /\ a[2] < b[2])
 (* pulses in total whose first coordinate has a given sign and more than    *)
 (* K-M pulses.  (Theorems in SymCodes_mc: S = U, V(N,K) = U(N,K)+U(N,K+1).)  *)
 NDim == 176        \* largest band of the static mode at its largest frame size
-KDim == 178        \* >= 128+1 pulses, and >= NDim+1 so that U(r,c), c <= 176, is tabulated for small r
+KDim == 130        \* at least 128 + 1 pulses, + 1 for U(N,K+1)
 
-RECURSIVE BuildRow(_, _, _)
-\* prev = row n-1, acc = row n for k = 0..m-1 (both 1-based sequences indexed k+1)
-BuildRow(prev, acc, m) ==
-  IF m > KDim THEN acc
-  ELSE BuildRow(prev, Append(acc, WAdd3(prev[m + 1], acc[m], prev[m])), m + 1)
-RECURSIVE BuildTab(_, _, _)
-BuildTab(rows, n, first) ==
-  IF n > NDim THEN rows
-  ELSE BuildTab(Append(rows, BuildRow(rows[n], <<first>>, 1)), n + 1, first)
-Row0 == [m \in 1..KDim + 1 |-> IF m = 1 THEN WOne ELSE WZero]
-UW == BuildTab(<<Row0>>, 1, WZero)
-VW == BuildTab(<<Row0>>, 1, WOne)
+RECURSIVE BuildRow(_, _, _, _)
+\* prev = row n-1, acc = row n for k = 0..m-1 (both 1-based sequences indexed k+1), kd = last column
+BuildRow(prev, acc, m, kd) ==
+  IF m > kd THEN acc
+  ELSE BuildRow(prev, Append(acc, WAdd3(prev[m + 1], acc[m], prev[m])), m + 1, kd)
+RECURSIVE BuildTab(_, _, _, _, _)
+\* rows 0..nd of the recurrence X(n,k) = X(n-1,k) + X(n,k-1) + X(n-1,k-1) with X(n,0) = first for n > 0
+BuildTab(rows, n, nd, kd, first) ==
+  IF n > nd THEN rows
+  ELSE BuildTab(Append(rows, BuildRow(rows[n], <<first>>, 1, kd)), n + 1, nd, kd, first)
+Row0(kd) == [m \in 1..kd + 1 |-> IF m = 1 THEN WOne ELSE WZero]       \* X(0,0) = 1, X(0,k>0) = 0
+VW == BuildTab(<<Row0(KDim)>>, 1, NDim, KDim, WOne)
 RECURSIVE PrefixRow(_, _, _)
 PrefixRow(vrow, acc, m) ==
   IF m > KDim THEN acc ELSE PrefixRow(vrow, Append(acc, WAdd(acc[m], vrow[m])), m + 1)
-\* SW[n] is row n (n >= 1): S(n,m), m = 0..KDim
-SW == [n \in 1..NDim |-> PrefixRow(VW[n], <<WZero>>, 1)]
+\* SW[n] is row n (n >= 1): S(n,m), m = 0..KDim.  (Built as a tuple from one reference to the V table:
+\* a function constructor would be re-evaluated by TLC at every application.)
+RECURSIVE BuildS(_, _, _)
+BuildS(vw, rows, n) ==
+  IF n > NDim THEN rows ELSE BuildS(vw, Append(rows, PrefixRow(vw[n], <<WZero>>, 1)), n + 1)
+SW == BuildS(VW, <<>>, 1)
+\* U by its recurrence for the rows the C table has (r < 15), all columns the table may have
+UTabRows == 15
+WideCols == 178
+UWide == BuildTab(<<Row0(WideCols)>>, 1, UTabRows - 1, WideCols, WZero)
 
 InDims(n, k) == n \in 0..NDim /\ k \in 0..KDim
-Uw(n, k) == UW[n + 1][k + 1]
+\* U(N,K) as cwrs.c defines it: the number of N-vectors ... = sum of V(N-1,j) over j < K, U(0,K) = [K = 0]
+\* (SymCodes_mc: this U obeys the recurrence, is symmetric, and agrees with UWide)
+Uw(n, k) == IF n = 0 THEN (IF k = 0 THEN WOne ELSE WZero) ELSE SW[n][k + 1]
 Vw(n, k) == VW[n + 1][k + 1]
 Sw(n, m) == SW[n][m + 1]
 \* native values, -1 when the value does not fit TLC's integers
@@ -126,6 +143,25 @@ VectorOf(n, k, i) ==       \* defined for n >= 1, 0 <= i < V(n,k) < 2^31
            a == CHOOSE a \in (IF nonneg THEN 0 ELSE 1)..k :
                    Sn(n, k - a) <= i1 /\ i1 < Sn(n, k - a + 1)
        IN <<IF nonneg THEN a ELSE -a>> \o VectorOf(n - 1, k - a, i1 - Sn(n, k - a))
+
+\* The same two maps on wide indices, for codebooks with 2^31 <= V < 2^32 (SymCodes_mc: they agree with
+\* IndexOf / VectorOf wherever those are defined).  A saturated S (>= 2^32) compares correctly with any index.
+RECURSIVE IndexOfW(_)
+IndexOfW(y) ==
+  LET n == Len(y)
+      k == SumAbs(y)
+      a == Abs(y[1])
+  IN IF n = 1 THEN (IF y[1] < 0 THEN WOne ELSE WZero)
+     ELSE WAdd3(IF y[1] < 0 THEN Sw(n, k + 1) ELSE WZero, Sw(n, k - a), IndexOfW(Tail(y)))
+RECURSIVE VectorOfW(_, _, _)
+VectorOfW(n, k, iw) ==
+  IF k = 0 THEN Zeros(n)
+  ELSE IF n = 1 THEN <<IF iw = WZero THEN k ELSE -k>>
+  ELSE LET nonneg == WLess(iw, Sw(n, k + 1))
+           i1 == IF nonneg THEN iw ELSE WSub(iw, Sw(n, k + 1))
+           a == CHOOSE a \in (IF nonneg THEN 0 ELSE 1)..k :
+                   WLeq(Sw(n, k - a), i1) /\ WLess(i1, Sw(n, k - a + 1))
+       IN <<IF nonneg THEN a ELSE -a>> \o VectorOfW(n - 1, k - a, WSub(i1, Sw(n, k - a)))
 
 \* ------------------------------------------------------------------------
 \* 1. PVQ: transcription of the table-walking algorithms of celt/cwrs.c
@@ -283,17 +319,17 @@ WShr(w, s) == w[1] * Pow2(16 - s) + w[2] \div Pow2(s)
 SqShift(v) == LET p == v \div 256  q == v % 256
               IN 2 * p * p + (512 * p * q + q * q + 32767) \div 32768
 RECURSIVE Log2FracLoop(_, _, _)
-Log2FracLoop(val, l, frac) ==
+Log2FracLoop(val, lg, frac) ==
   LET b == val \div B16
-      l1 == l + b * Pow2(frac)
+      lg1 == lg + b * Pow2(frac)
       v1 == SqShift((val + b) \div Pow2(b))
-  IN IF frac > 0 THEN Log2FracLoop(v1, l1, frac - 1)
-     ELSE l1 + (IF v1 > 32768 THEN 1 ELSE 0)
+  IN IF frac > 0 THEN Log2FracLoop(v1, lg1, frac - 1)
+     ELSE lg1 + (IF v1 > 32768 THEN 1 ELSE 0)
 Log2Frac(w, frac) ==
-  LET l == WILog(w) IN
-  IF WIsPow2(w) THEN (l - 1) * Pow2(frac)
-  ELSE LET val == IF l > 16 THEN WShr(WDec(w), l - 16) + 1 ELSE w[2] * Pow2(16 - l)
-       IN Log2FracLoop(val, (l - 1) * Pow2(frac), frac)
+  LET lg == WILog(w) IN
+  IF WIsPow2(w) THEN (lg - 1) * Pow2(frac)
+  ELSE LET val == IF lg > 16 THEN WShr(WDec(w), lg - 16) + 1 ELSE w[2] * Pow2(16 - lg)
+       IN Log2FracLoop(val, (lg - 1) * Pow2(frac), frac)
 
 \* the record c has the fields of the "cache" line written by hx_sym tables:
 \*   nb, maxlm, size, ebands (nb+1), logn (nb), index ((maxlm+2)*nb), bits (size), caps ((maxlm+1)*2*nb)
@@ -314,12 +350,12 @@ CacheShapeOK(c) ==
        /\ N > 0 => /\ idx \in 0..c.size - 1
                    /\ c.bits[idx + 1] \in 1..MAX_PSEUDO
                    /\ idx + c.bits[idx + 1] < c.size
-\* bits strictly increase with the pulse count wherever more pulses mean more codewords (N >= 2)
+\* bits never decrease with the pulse count.  (Not strictly: log2_frac rounds up to 1/8 bit, and e.g. N = 2
+\* has V = 60 and V = 64 for K = 15 and 16, both costed 48/8 bit on the unchanged tree.)
 CacheMonotone(c) ==
   \A s \in CacheSlots(c) :
     LET idx == CacheIdx(c, s[1], s[2])  N == CacheN(c, s[1], s[2]) IN
-    N > 0 => \A j \in 1..c.bits[idx + 1] - 1 :
-                IF N >= 2 THEN c.bits[idx + 1 + j] < c.bits[idx + 2 + j] ELSE c.bits[idx + 1 + j] <= c.bits[idx + 2 + j]
+    N > 0 => \A j \in 1..c.bits[idx + 1] - 1 : c.bits[idx + 1 + j] <= c.bits[idx + 2 + j]
 \* every cached count has a codebook that fits 32 bits, and its cost is log2 V in 1/8 bit, rounded
 \* up as log2_frac does, minus one (the cache stores bits-1)
 CacheBitsMatchV(c) ==
@@ -387,15 +423,15 @@ CacheCapsMatch(c) ==
 \* ------------------------------------------------------------------------
 \* the U table of cwrs.c: u = [nw, off (15 row offsets into the data), hi, lo]
 \* ROW[r][c] = DATA[off[r] + c]; row r holds the columns r..URowMax(u, r)
-UTabRows == 15
 URowMax(u, r) == IF r < UTabRows - 1 THEN u.off[r + 2] - u.off[r + 1] + r ELSE u.nw - 1 - u.off[r + 1]
 UWord(u, r, cc) == <<u.hi[u.off[r + 1] + cc + 1], u.lo[u.off[r + 1] + cc + 1]>>
 UTabShapeOK(u) ==
   /\ Len(u.off) = UTabRows /\ Len(u.hi) = u.nw /\ Len(u.lo) = u.nw /\ u.off[1] = 0
-  /\ \A r \in 0..UTabRows - 1 : URowMax(u, r) >= r /\ URowMax(u, r) <= KDim /\ u.off[r + 1] + r >= 0
+  /\ \A r \in 0..UTabRows - 1 : /\ u.off[r + 1] + r >= 0 /\ URowMax(u, r) >= r /\ URowMax(u, r) <= WideCols
+                             /\ u.off[r + 1] + URowMax(u, r) + 1 <= u.nw
   /\ \A r \in 0..UTabRows - 2 : URowMax(u, r + 1) <= URowMax(u, r)
 UTableMatchesRecurrence(u) ==
-  \A r \in 0..UTabRows - 1 : \A cc \in r..URowMax(u, r) : UWord(u, r, cc) = Uw(r, cc)
+  \A r \in 0..UTabRows - 1 : \A cc \in r..URowMax(u, r) : UWord(u, r, cc) = UWide[r + 1][cc + 1]
 \* every U(a,b), a <= n, b <= k+1, that icwrs/cwrsi may read for (n,k) lies inside the table:
 \* the rows used are r = min(a,b) <= min(n,k+1), and in each of them the largest column used is
 \* max(n,k+1) (reached with a = n or b = k+1)
